@@ -6,6 +6,7 @@ import (
 	"fmt"
 	"io"
 	"strings"
+	"sync"
 	"testing"
 	"time"
 
@@ -31,7 +32,7 @@ type witness struct {
 }
 
 func buildAgent(c *caseSpec, a *agentSpec, rec *recorder) (ag *react.Agent, err error, p *mon.Panic) {
-	base := scripted{c: c, a: a, rec: rec, firstChunk: a.Checker == "first-chunk"}
+	base := scripted{c: c, a: a, rec: rec, firstChunk: a.Checker != "full-scan"}
 	cfg := &react.AgentConfig{
 		ToolsConfig: compose.ToolsNodeConfig{Tools: buildTools(c, rec)},
 		MaxStep:     c.MaxStep,
@@ -56,10 +57,14 @@ func buildAgent(c *caseSpec, a *agentSpec, rec *recorder) (ag *react.Agent, err 
 			return applyModifier(kind, in)
 		}
 	}
-	if a.Checker == "full-scan" {
-		cfg.StreamToolCallChecker = fullScanChecker(rec, a.ScanEarly)
+	if a.Checker != "first-chunk" {
+		cfg.StreamToolCallChecker = customChecker(rec, a.Checker, checkerImplOf(c), a.ScanEarly)
 	}
-	p = mon.Safe(func() { ag, err = react.NewAgent(context.Background(), cfg) })
+	// the context of NewAgent belongs to the set-up, not to any run: it may carry values of
+	// its own and may be cancelled as soon as NewAgent has returned
+	ctorCtx, ctorDone := ctorContext(ctorKindOf(c))
+	p = mon.Safe(func() { ag, err = react.NewAgent(ctorCtx, cfg) })
+	ctorDone()
 	return
 }
 
@@ -71,73 +76,103 @@ type execResult struct {
 	intact bool // the caller's input slice and messages were left as they were
 }
 
-// execute performs one Generate or Stream run (stream read to EOF) on its own
-// goroutine; the quiescence monitor decides whether it can still finish. A Stuck
-// verdict is re-examined several times (a truly stuck run stays stuck for ever, so
-// this costs nothing); retracted is the number of Stuck verdicts that did not survive.
-func execute(ag *react.Agent, mode string, c *caseSpec) (*execResult, string, mon.WaitResult, []mon.G, int) {
-	modeName := map[string]string{"G": "generate", "S": "stream"}[mode]
-	r := &execResult{} // captured by the run goroutine: never reassigned
-	r.out.Mode = modeName
-	var (
-		res       mon.WaitResult
-		dump      []mon.G
-		retracted int
-	)
-	input := buildInput(c)
+// runCall is one Generate ("G") or Stream ("S") call; before / after run on the goroutine of
+// the call (gate before the call, bookkeeping after it).
+type runCall struct {
+	mode          string
+	ctx           context.Context
+	input         []*schema.Message
+	before, after func()
+}
+
+var modeNames = map[string]string{"G": "generate", "S": "stream"}
+
+// runBody performs the call (stream read to EOF) and fills r.
+func runBody(ag *react.Agent, rc runCall, r *execResult) {
+	input := rc.input
 	before := normAll(input)
-	ctx := context.WithValue(context.Background(), ctxKey{}, 1)
-	done := make(chan struct{})
-	go func() {
-		defer close(done)
-		out := &r.out
-		r.p = mon.Safe(func() {
-			if mode == "G" {
-				m, err := ag.Generate(ctx, input)
-				if err != nil {
-					out.Err, out.ErrWhere = err, "call"
-					return
-				}
-				out.Final, out.HasFinal, out.Chunks = norm(m), m != nil, 1
-				return
-			}
-			sr, err := ag.Stream(ctx, input)
+	out := &r.out
+	r.p = mon.Safe(func() {
+		if rc.mode == "G" {
+			m, err := ag.Generate(rc.ctx, input)
 			if err != nil {
 				out.Err, out.ErrWhere = err, "call"
 				return
 			}
-			defer sr.Close()
-			var chunks []*schema.Message
-			for {
-				m, err := sr.Recv()
-				if err == io.EOF {
-					break
-				}
-				if err != nil {
-					out.Err, out.ErrWhere = err, "recv"
-					return
-				}
-				chunks = append(chunks, m)
-			}
-			out.Chunks = len(chunks)
-			switch len(chunks) {
-			case 0:
-			case 1:
-				out.Final, out.HasFinal = norm(chunks[0]), chunks[0] != nil
-			default:
-				m, err := schema.ConcatMessages(chunks)
-				if err != nil {
-					out.Err, out.ErrWhere = fmt.Errorf("result stream cannot be concatenated: %w", err), "concat"
-					return
-				}
-				out.Final, out.HasFinal = norm(m), true
-			}
-		})
-		after := normAll(input)
-		r.intact = len(after) == len(before)
-		for i := 0; r.intact && i < len(after); i++ {
-			r.intact = after[i].equal(before[i])
+			out.Final, out.HasFinal, out.Chunks = norm(m), m != nil, 1
+			return
 		}
+		sr, err := ag.Stream(rc.ctx, input)
+		if err != nil {
+			out.Err, out.ErrWhere = err, "call"
+			return
+		}
+		defer sr.Close()
+		var chunks []*schema.Message
+		for {
+			m, err := sr.Recv()
+			if err == io.EOF {
+				break
+			}
+			if err != nil {
+				out.Err, out.ErrWhere = err, "recv"
+				return
+			}
+			chunks = append(chunks, m)
+		}
+		out.Chunks = len(chunks)
+		switch len(chunks) {
+		case 0:
+		case 1:
+			out.Final, out.HasFinal = norm(chunks[0]), chunks[0] != nil
+		default:
+			m, err := schema.ConcatMessages(chunks)
+			if err != nil {
+				out.Err, out.ErrWhere = fmt.Errorf("result stream cannot be concatenated: %w", err), "concat"
+				return
+			}
+			out.Final, out.HasFinal = norm(m), true
+		}
+	})
+	after := normAll(input)
+	r.intact = len(after) == len(before)
+	for i := 0; r.intact && i < len(after); i++ {
+		r.intact = after[i].equal(before[i])
+	}
+}
+
+// executeGroup performs the calls, each on its own goroutine, all at the same time (one
+// call = a plain sequential run); the quiescence monitor decides whether they can still
+// finish. A Stuck verdict is re-examined several times (a truly stuck run stays stuck for
+// ever, so this costs nothing); retracted is the number of Stuck verdicts that did not
+// survive. The results are returned only if every call has finished.
+func executeGroup(ag *react.Agent, calls []runCall) ([]*execResult, mon.WaitResult, []mon.G, int) {
+	var (
+		res       mon.WaitResult
+		dump      []mon.G
+		retracted int
+		wg        sync.WaitGroup
+	)
+	rs := make([]*execResult, len(calls)) // captured by the run goroutines: never reassigned
+	done := make(chan struct{})
+	for i := range calls {
+		rs[i] = &execResult{}
+		rs[i].out.Mode = modeNames[calls[i].mode]
+		wg.Add(1)
+		go func(rc runCall, r *execResult) {
+			defer wg.Done()
+			if rc.before != nil {
+				rc.before()
+			}
+			runBody(ag, rc, r)
+			if rc.after != nil {
+				rc.after()
+			}
+		}(calls[i], rs[i])
+	}
+	go func() {
+		wg.Wait()
+		close(done)
 	}()
 	const watchdog = 120 * time.Second
 	// A Stuck verdict must survive 6 examinations in a row. Two things make a single
@@ -167,9 +202,18 @@ func execute(ag *react.Agent, mode string, c *caseSpec) (*execResult, string, mo
 		retracted += confirmed
 	}
 	if res != mon.Finished {
-		return nil, modeName, res, dump, retracted
+		return nil, res, dump, retracted
 	}
-	return r, modeName, res, nil, retracted
+	return rs, res, nil, retracted
+}
+
+// execute performs one run.
+func execute(ag *react.Agent, rc runCall) (*execResult, string, mon.WaitResult, []mon.G, int) {
+	rs, res, dump, retracted := executeGroup(ag, []runCall{rc})
+	if rs == nil {
+		return nil, modeNames[rc.mode], res, dump, retracted
+	}
+	return rs[0], modeNames[rc.mode], res, dump, retracted
 }
 
 // runtimeSemWait: some goroutine is parked on a semaphore of the runtime itself (no
@@ -194,13 +238,16 @@ func TestCheck(t *testing.T) {
 			"original messages; it is run on TWO agents (default first-chunk checker with contract-conforming chunkings; custom full-scan "+
 			"StreamToolCallChecker with arbitrary chunkings; ChatModel or ToolCallingChatModel wiring), each agent 2-3 times sequentially "+
 			"(Generate and Stream). Every run is compared with a plain ReAct loop simulator (inputs of every model call, tool invocations per round, "+
-			"result, step-limit error) and Generate with concat(Stream). Non-trivial: the reference executes at least one tool round and both agents "+
-			"completed a Generate and a Stream run; distinct = distinct case specs.",
+			"result, step-limit error) and Generate with concat(Stream). Four workloads by case index: classic (55 %); rd (15 %: marked calls without / with "+
+			"duplicate ids at every position of 1-5 calls, multi-chunk marked tools); ctx (10 %: custom checkers that read their context, constructor context "+
+			"with own values / cancelled); overlap (20 %: 2-4 runs of ONE agent with own inputs and scripts overlapping in time under a PRNG gate order forced "+
+			"inside the model and the tools, each run judged on its own). Non-trivial: the reference executes at least one tool round and both agents "+
+			"completed a Generate and a Stream run (overlap: at least two runs with a tool round, all runs completed); distinct = distinct case specs.",
 		[]string{
 			"schema.ConcatMessages is trusted to rebuild the observed result stream (property C14 checks it); expected values never pass through it",
-			"runs on one agent are sequential (concurrent use is property C09)",
+			"sequential workloads: runs on one agent are sequential; overlap workload: calls are attributed to their run through the context eino hands to the model and the tools",
 			"the step-limit error is recognised by errors.Is(err, compose.ErrExceedMaxSteps) or, because of defect D-C13 (internalError has no Unwrap), by its message",
-			"schedules of the parallel tool calls and of the streaming goroutines vary between executions; the verdict does not depend on them",
+			"schedules of the parallel tool calls and of the streaming goroutines vary between executions, and so does everything between two gates of the overlap workload; the verdict does not depend on them",
 		},
 		200)
 	defer func() {
@@ -215,9 +262,13 @@ func TestCheck(t *testing.T) {
 	rep.Require("outcome_step-limit", 10)
 	rep.Require("outcome_final", 10)
 	rep.Require("steplimit_errors_recognised", 10)
-	rep.Require("fullscan_checker_calls", 50)
+	rep.Require("checker_calls_judged", 50)
+	rep.Require("rd_marked_call_without_id_answered", 5)
+	rep.Require("rd_marked_call_with_duplicate_id_answered", 5)
+	rep.Require("overlap_groups_judged", 10)
+	rep.Require("overlap_gate_switches", 50)
 
-	n := int64(cfg.Pick(1200, 5000)) // scripts per shard; each runs under both checker configurations
+	n := int64(cfg.Pick(1200, 5000)) // cases per shard
 	rep.Cases(n, func(idx int64, rng *mon.Rand) {
 		if hangsSeen >= 8 {
 			// every hang leaves goroutines behind and costs several quiescence proofs; the
@@ -225,19 +276,36 @@ func TestCheck(t *testing.T) {
 			rep.Count("cases_skipped_after_8_hangs", 1)
 			return
 		}
-		c := generate(rng)
-		sim := simulate(c, false)
-		if idx < 2 {
+		var c *caseSpec
+		switch k := idx % 20; {
+		case k < 11:
+			c = generate(rng)
+		case k < 14:
+			c = generateRD(rng)
+		case k < 16:
+			c = generateCtx(rng)
+		default:
+			c = generateOverlap(rng)
+		}
+		if idx < 2 || (idx >= 11 && idx <= 19 && idx%2 == 1) {
 			rep.Sample(c)
 		}
-		rep.Count("outcome_"+sim.Outcome, 1)
-		rep.Count("expected_model_calls", int64(len(sim.Inputs)))
+		rep.Count("cases_"+map[string]string{"": "classic"}[c.Kind]+c.Kind, 1)
 		if c.MaxStep == 0 {
 			rep.Count("cases_default_max_step", 1)
 		}
 		if c.Modifier != 0 {
 			rep.Count("cases_with_modifier", 1)
 		}
+		if c.Kind == "overlap" {
+			if runOverlap(rep, c) {
+				rep.NonTrivial(c.digest())
+			}
+			return
+		}
+		sim := simulate(c, false)
+		rep.Count("outcome_"+sim.Outcome, 1)
+		rep.Count("expected_model_calls", int64(len(sim.Inputs)))
 		if !c.hasTerminalStep() {
 			rep.Count("cases_never_stopping_script", 1)
 		}
@@ -253,6 +321,121 @@ func TestCheck(t *testing.T) {
 		}
 		rep.Distinct("shape", fmt.Sprintf("%s/steps%d/limit%d/mod%d/rd%v", sim.Outcome, sim.Steps, sim.Limit, c.Modifier, len(c.ReturnDirectly) > 0))
 	})
+}
+
+// reportHang records a run (or group of runs) that can never finish.
+func reportHang(rep *mon.Reporter, sig string, dump []mon.G, w witness) {
+	txt := ""
+	for _, g := range mon.Parked(dump, "github.com/cloudwego/eino/", "verifharness/checks/c18") {
+		txt += g.Raw + "\n\n"
+	}
+	txt += fmt.Sprintf("(%d goroutines in the dump; the Stuck verdict was confirmed by 6 examinations in a row)", len(dump))
+	hangsSeen++
+	rep.Violation(sig, "process quiescent while the run is unfinished\n"+txt, w)
+}
+
+// reportRun judges one finished run against the reference of ITS case (c, sim) and records
+// violations (signature + suffix) and evidence. It returns the number of findings.
+func reportRun(rep *mon.Reporter, c *caseSpec, a *agentSpec, sim simOut, rr *runRec, er *execResult, token, suffix, runName string, w witness) int {
+	out := er.out
+	rr.mu.Lock() // the run is over; late stragglers (none expected) would still be serialised
+	defer rr.mu.Unlock()
+	fs := judge(sim, rr, out)
+	if len(fs) > 0 && sim.IdlessDirect {
+		// root-cause probe: does the run behave exactly like a loop that does not honour a
+		// return-directly call without tool-call id? Then report that one thing, once.
+		if alt := simulate(c, true); len(judge(alt, rr, out)) == 0 {
+			fs = []finding{{Sig: "C18/return-directly/not-honoured-for-tool-call-without-id",
+				Detail: fmt.Sprintf("the first return-directly tool call of an assistant message has an empty ToolCall.ID; expected outcome %s %s after %d model call(s); "+
+					"observed %d model call(s), err=%v, result=%s (= behaviour of a loop that ignores the return-directly mark)",
+					sim.Outcome, js(sim.Final), len(sim.Inputs), len(rr.calls), out.Err, js(out.Final))}}
+			suffix = ""
+		}
+	}
+	if len(fs) == 1 && sim.DupDirect && fs[0].Sig == "C18/result/"+out.Mode+"/return-directly/differs" {
+		// everything up to the marked round agrees and a message is returned, but not the marked
+		// call's own result, and that call shares its id with another call of the same message
+		fs[0].Sig = "C18/return-directly/" + out.Mode + "/wrong-result-when-another-call-has-the-same-id"
+		suffix = ""
+	}
+	for _, mc := range rr.calls {
+		if mc.Changed != nil {
+			fs = append(fs, finding{Sig: "C18/overlap/" + out.Mode + "/model-input-changed-during-model-call",
+				Detail: fmt.Sprintf("the messages handed to a model call were overwritten while the call was in progress\nat entry: %s\nlater:    %s", js(mc.Input), js(mc.Changed))})
+			break
+		}
+	}
+	checkerFindings := 0
+	if a.Checker != "first-chunk" {
+		cf := judgeChecker(out.Mode, token, rr.checker)
+		if impl := checkerImplOf(c); len(cf) > 0 && (impl == "cancel-aware" || impl == "env-required") {
+			fs = nil // this checker gives up in a foreign context: how the run ends then is a consequence
+		}
+		for _, f := range cf {
+			f.Sig += strings.TrimSuffix(suffix, "@rerun") // a wrong context has nothing to do with earlier runs
+			rep.Violation(f.Sig, fmt.Sprintf("agent %s/%s (checker implementation %q, constructor context %q), run %s\n%s", a.Checker, a.Wiring, checkerImplOf(c), ctorKindOf(c), runName, f.Detail), w)
+		}
+		rep.Count("checker_calls_judged", int64(len(rr.checker)))
+		rep.Count("checker_calls_with_findings", int64(len(cf)))
+		rep.Count("checker_impl_"+checkerImplOf(c), int64(len(rr.checker)))
+		if len(rr.checker) != len(rr.calls) {
+			rep.Count("checker_calls_not_one_per_model_call", 1)
+		}
+		checkerFindings = len(cf)
+	}
+	for _, f := range fs {
+		rep.Violation(f.Sig+suffix, fmt.Sprintf("agent %s/%s, run %s\n%s", a.Checker, a.Wiring, runName, f.Detail), w)
+	}
+	nf := len(fs) + checkerFindings
+
+	// evidence
+	rep.Count("runs_"+out.Mode, 1)
+	rep.Count("model_calls_observed", int64(len(rr.calls)))
+	nc := len(rr.calls)
+	if len(sim.Inputs) < nc {
+		nc = len(sim.Inputs)
+	}
+	rep.Count("model_inputs_compared", int64(nc))
+	for _, mc := range rr.calls {
+		rep.Count("model_"+mc.Mode+"_calls_in_"+out.Mode+"_run", 1)
+		if !mc.Bound {
+			rep.Count("model_calls_on_unbound_instance", 1)
+		}
+	}
+	rep.Count("tool_invocations_observed", int64(len(rr.tools)))
+	for _, ti := range rr.tools {
+		rep.Count("tool_via_"+ti.Via, 1)
+	}
+	rep.Count("tool_rounds_compared", int64(len(sim.Rounds)))
+	if out.Mode == "stream" && out.Err == nil {
+		rep.Count("result_stream_chunks", int64(out.Chunks))
+	}
+	if sim.Outcome == outDirect && nf == 0 {
+		if sim.IdlessDirect {
+			rep.Count("rd_marked_call_without_id_answered", 1)
+		}
+		if sim.DupDirect {
+			rep.Count("rd_marked_call_with_duplicate_id_answered", 1)
+		}
+		if c.Kind == "rd" {
+			rep.Count("rd_answers_in_"+out.Mode, 1)
+		}
+	}
+	if out.Err != nil {
+		rep.Count("run_errors_at_"+out.ErrWhere, 1)
+		if is, msgOnly := isStepLimit(out.Err); is {
+			rep.Count("steplimit_errors_recognised", 1)
+			if msgOnly {
+				rep.Count("steplimit_errors_message_only_errors_Is_false", 1)
+			} else {
+				rep.Count("steplimit_errors_errors_Is_true", 1)
+			}
+		}
+	}
+	if !er.intact {
+		rep.Count("caller_input_modified", 1)
+	}
+	return nf
 }
 
 // runAgent builds one agent and performs its sequential runs. It returns false if
@@ -285,99 +468,37 @@ func runAgent(rep *mon.Reporter, c *caseSpec, a *agentSpec, sim simOut) bool {
 		rep.AddEvaluations(1)
 		rr := &runRec{}
 		rec.set(rr)
-		er, modeName, res, dump, retracted := execute(ag, mode, c)
+		env := &runEnv{Token: fmt.Sprintf("%s#%d", a.Checker, ri+1), rr: rr, early: a.ScanEarly != (ri%2 == 1)}
+		kind := "plain"
+		if ri < len(a.RunCtx) {
+			kind = a.RunCtx[ri]
+		}
+		ctx, cancel := runContext(kind, env)
+		er, modeName, res, dump, retracted := execute(ag, runCall{mode: mode, ctx: ctx, input: buildInput(c)})
 		rep.Count("stuck_verdicts_retracted_on_recheck", int64(retracted))
 		runName := fmt.Sprintf("#%d %s", ri+1, modeName)
-		out := runOut{Mode: modeName}
-		var p *mon.Panic
-		intact := true
-		if er != nil {
-			out, p, intact = er.out, er.p, er.intact
-		}
 		suffix := ""
 		if ri > 0 && clean {
 			suffix = "@rerun" // the same agent got it right before: state carried over between runs
 		}
 		switch res {
 		case mon.Stuck:
-			txt := ""
-			for _, g := range mon.Parked(dump, "github.com/cloudwego/eino/", "verifharness/checks/c18") {
-				txt += g.Raw + "\n\n"
-			}
-			txt += fmt.Sprintf("(%d goroutines in the dump; the Stuck verdict was confirmed by 6 examinations in a row)", len(dump))
-			hangsSeen++
-			rep.Violation("C18/hang/"+out.Mode+suffix, "process quiescent while the run is unfinished\n"+txt, w(runName))
+			reportHang(rep, "C18/hang/"+modeName+suffix, dump, w(runName))
 			return false
 		case mon.Inconclusive:
 			rep.Inconclusive("watchdog fired while goroutines were still active in " + runName)
 			return false
 		}
-		if p != nil {
-			rep.Violation("C18/panic/"+out.Mode+"/"+p.FirstFrame("github.com/cloudwego/eino/")+suffix, p.Value+"\n"+p.Stack, w(runName))
+		cancel() // the run is over
+		if er.p != nil {
+			rep.Violation("C18/panic/"+modeName+"/"+er.p.FirstFrame("github.com/cloudwego/eino/")+suffix, er.p.Value+"\n"+er.p.Stack, w(runName))
 			clean = false
 			continue
 		}
-		rr.mu.Lock() // the run is over; late stragglers (none expected) would still be serialised
-		fs := judge(sim, rr, out)
-		if len(fs) > 0 && sim.IdlessDirect {
-			// root-cause probe: does the run behave exactly like a loop that does not honour a
-			// return-directly call without tool-call id? Then report that one thing, once.
-			if alt := simulate(c, true); len(judge(alt, rr, out)) == 0 {
-				fs = []finding{{Sig: "C18/return-directly/not-honoured-for-tool-call-without-id",
-					Detail: fmt.Sprintf("the first return-directly tool call of an assistant message has an empty ToolCall.ID; expected outcome %s %s after %d model call(s); "+
-						"observed %d model call(s), err=%v, result=%s (= behaviour of a loop that ignores the return-directly mark)",
-						sim.Outcome, js(sim.Final), len(sim.Inputs), len(rr.calls), out.Err, js(out.Final))}}
-				suffix = ""
-			}
-		}
-		for _, f := range fs {
-			rep.Violation(f.Sig+suffix, fmt.Sprintf("agent %s/%s, run %s\n%s", a.Checker, a.Wiring, runName, f.Detail), w(runName))
-		}
-		if len(fs) > 0 {
+		if reportRun(rep, c, a, sim, rr, er, env.Token, suffix, runName, w(runName)) > 0 {
 			clean = false
 		}
-
-		// evidence
-		rep.Count("runs_"+out.Mode, 1)
-		rep.Count("model_calls_observed", int64(len(rr.calls)))
-		nc := len(rr.calls)
-		if len(sim.Inputs) < nc {
-			nc = len(sim.Inputs)
-		}
-		rep.Count("model_inputs_compared", int64(nc))
-		for _, mc := range rr.calls {
-			rep.Count("model_"+mc.Mode+"_calls_in_"+out.Mode+"_run", 1)
-			if !mc.Bound {
-				rep.Count("model_calls_on_unbound_instance", 1)
-			}
-		}
-		rep.Count("tool_invocations_observed", int64(len(rr.tools)))
-		for _, ti := range rr.tools {
-			rep.Count("tool_via_"+ti.Via, 1)
-		}
-		rep.Count("tool_rounds_compared", int64(len(sim.Rounds)))
-		rep.Count("fullscan_checker_calls", int64(rr.checkerCalls))
-		rep.Count("fullscan_checker_got_run_ctx", int64(rr.checkerCtxOK))
-		if out.Mode == "stream" && out.Err == nil {
-			rep.Count("result_stream_chunks", int64(out.Chunks))
-		}
-		if out.Err != nil {
-			rep.Count("run_errors_at_"+out.ErrWhere, 1)
-			if is, msgOnly := isStepLimit(out.Err); is {
-				rep.Count("steplimit_errors_recognised", 1)
-				if msgOnly {
-					rep.Count("steplimit_errors_message_only_errors_Is_false", 1)
-				} else {
-					rep.Count("steplimit_errors_errors_Is_true", 1)
-				}
-			}
-		}
-		if !intact {
-			rep.Count("caller_input_modified", 1)
-		}
-		rr.mu.Unlock()
-
-		o := out
+		o := er.out
 		if mode == "G" && firstG == nil {
 			firstG = &o
 		}
@@ -402,4 +523,128 @@ func runAgent(rep *mon.Reporter, c *caseSpec, a *agentSpec, sim simOut) bool {
 		}
 	}
 	return firstG != nil && firstS != nil
+}
+
+// runOverlap builds ONE agent and performs the runs of the group at the same time under the
+// gate order of the case (after, for some cases, a control phase in which the same runs are
+// made one after the other). Every run is judged on its own. It returns true if the
+// case was non-trivial (all runs judged, two of them with a tool round, gates of different
+// runs really alternated).
+func runOverlap(rep *mon.Reporter, c *caseSpec) bool {
+	o, a := c.Overlap, &c.Agents[0]
+	rec := &recorder{byCtx: true, orphan: &runRec{}}
+	ag, err, p := buildAgent(c, a, rec)
+	w := func(run string) witness { return witness{Agent: a.Checker + "/" + a.Wiring, Run: run, Case: c} }
+	if p != nil {
+		rep.Violation("C18/panic/new-agent/"+p.FirstFrame("github.com/cloudwego/eino/"), p.Value+"\n"+p.Stack, w("NewAgent"))
+		return false
+	}
+	if err != nil {
+		rep.Violation("C18/new-agent/error", err.Error(), w("NewAgent"))
+		return false
+	}
+	n := len(o.Runs)
+	cases := make([]*caseSpec, n)
+	sims := make([]simOut, n)
+	withRound := 0
+	for i := range o.Runs {
+		cases[i] = c.runCase(i)
+		sims[i] = simulate(cases[i], false)
+		rep.Count("outcome_"+sims[i].Outcome, 1)
+		if len(sims[i].Rounds) > 0 {
+			withRound++
+		}
+	}
+	name := func(i int, phase string) string {
+		return fmt.Sprintf("%s run %c %s", phase, 'A'+i, modeNames[o.Runs[i].Mode])
+	}
+
+	// ---- control: the same runs one after the other
+	if o.Control {
+		for i, run := range o.Runs {
+			rep.AddEvaluations(1)
+			env := &runEnv{Token: fmt.Sprintf("control-%c", 'A'+i), Idx: i, c: cases[i], rr: &runRec{}, early: i%2 == 1}
+			ctx, cancel := runContext(run.RunCtx, env)
+			er, modeName, res, dump, retracted := execute(ag, runCall{mode: run.Mode, ctx: ctx, input: buildInput(cases[i])})
+			rep.Count("stuck_verdicts_retracted_on_recheck", int64(retracted))
+			switch res {
+			case mon.Stuck:
+				reportHang(rep, "C18/hang/"+modeName, dump, w(name(i, "control")))
+				return false
+			case mon.Inconclusive:
+				rep.Inconclusive("watchdog fired while goroutines were still active in " + name(i, "control"))
+				return false
+			}
+			cancel()
+			if er.p != nil {
+				rep.Violation("C18/panic/"+modeName+"/"+er.p.FirstFrame("github.com/cloudwego/eino/"), er.p.Value+"\n"+er.p.Stack, w(name(i, "control")))
+				return false
+			}
+			if reportRun(rep, cases[i], a, sims[i], env.rr, er, env.Token, "", name(i, "control"), w(name(i, "control"))) > 0 {
+				return false // not a matter of overlapping: the sequential workloads report it
+			}
+			rep.Count("overlap_control_runs_judged", 1)
+		}
+	}
+
+	// ---- the overlapping runs
+	sc := newSched(o.Order, n)
+	envs := make([]*runEnv, n)
+	calls := make([]runCall, n)
+	cancels := make([]func(), n)
+	for i, run := range o.Runs {
+		i := i
+		envs[i] = &runEnv{Token: fmt.Sprintf("run-%c", 'A'+i), Idx: i, c: cases[i], rr: &runRec{}, sched: sc, early: i%2 == 0}
+		ctx, cancel := runContext(run.RunCtx, envs[i])
+		cancels[i] = cancel
+		calls[i] = runCall{mode: run.Mode, ctx: ctx, input: buildInput(cases[i]),
+			before: func() { sc.pass(i, evStart, 0) },
+			after:  func() { sc.finish(i) }}
+	}
+	rep.AddEvaluations(int64(n))
+	rs, res, dump, retracted := executeGroup(ag, calls)
+	rep.Count("stuck_verdicts_retracted_on_recheck", int64(retracted))
+	switch res {
+	case mon.Stuck:
+		reportHang(rep, "C18/hang/overlap", dump, w("overlapping runs"))
+		return false
+	case mon.Inconclusive:
+		rep.Inconclusive("watchdog fired while goroutines were still active in a group of overlapping runs")
+		return false
+	}
+	for _, cancel := range cancels {
+		cancel()
+	}
+	judged := 0
+	for i := range o.Runs {
+		if rs[i].p != nil {
+			rep.Violation("C18/panic/"+rs[i].out.Mode+"/"+rs[i].p.FirstFrame("github.com/cloudwego/eino/")+"@overlap", rs[i].p.Value+"\n"+rs[i].p.Stack, w(name(i, "overlapping")))
+			continue
+		}
+		reportRun(rep, cases[i], a, sims[i], envs[i].rr, rs[i], envs[i].Token, "@overlap", name(i, "overlapping"), w(name(i, "overlapping")))
+		judged++
+		rep.Count("overlap_runs_judged", 1)
+	}
+	// calls that reached the model, a tool or the checker without the context of their run
+	rec.orphan.mu.Lock()
+	if nm, nt := len(rec.orphan.calls), len(rec.orphan.tools); nm+nt > 0 {
+		rep.Violation("C18/overlap/run-context-not-handed-to-model-or-tool", fmt.Sprintf("%d model call(s) and %d tool invocation(s) got a context that does not carry the value put into the context of Generate/Stream", nm, nt), w("overlapping runs"))
+	}
+	for _, f := range judgeChecker("overlap", "", rec.orphan.checker) {
+		rep.Violation(f.Sig, fmt.Sprintf("agent %s/%s (checker implementation %q, constructor context %q), overlapping runs: the call cannot be attributed to any run\n%s", a.Checker, a.Wiring, checkerImplOf(c), ctorKindOf(c), f.Detail), w("overlapping runs"))
+	}
+	rep.Count("checker_calls_judged", int64(len(rec.orphan.checker)))
+	rec.orphan.mu.Unlock()
+
+	sc.mu.Lock()
+	tr := append([]event(nil), sc.trace...)
+	sc.mu.Unlock()
+	sw := switches(tr)
+	rep.Count("overlap_groups_judged", 1)
+	rep.Count("overlap_groups_"+o.Pattern, 1)
+	rep.Count(fmt.Sprintf("overlap_groups_of_%d_runs", n), 1)
+	rep.Count("overlap_gates_passed", int64(len(tr)))
+	rep.Count("overlap_gate_switches", int64(sw))
+	rep.Distinct("interleaving", traceString(tr))
+	return judged == n && withRound >= 2 && sw >= 1
 }
